@@ -144,6 +144,11 @@ class ControllerApplication:
             self._ecu.remove_timer(self._process_claim_async)
 
     def _process_claim_async(self, cookie):
+        # the receive thread handles contending claims in _process_addressclaim: one at a time
+        with self._ecu._address_claim_lock:
+            return self._process_claim_async_locked(cookie)
+
+    def _process_claim_async_locked(self, cookie):
         time_to_sleep = 0.500
         if self._device_address_state == ControllerApplication.State.NONE:
             if self._device_address_preferred != None:
@@ -182,6 +187,11 @@ class ControllerApplication:
         :param float timestamp:
             The timestamp the message was received (mostly) in fractions of Epoch-Seconds.
         """
+        # the job thread moves the claim state machine on in _process_claim_async: one at a time
+        with self._ecu._address_claim_lock:
+            self._process_addressclaim_locked(mid, data, timestamp)
+
+    def _process_addressclaim_locked(self, mid, data, timestamp):
         src_address = mid.source_address
         logger.debug("Received ADDRESS CLAIMED message from source '%d'", src_address)
 
